@@ -89,6 +89,16 @@ impl<const S: usize> WantlistState<S> {
             .and_modify(|state| *state = WantReqState::GotBlock);
     }
 
+    /// Forget that the block of `cid` was received from this peer.
+    ///
+    /// This must be called when `cid` is inserted in the `Wantlist` again, otherwise
+    /// it will never be requested again from the peers that delivered it in the past.
+    pub(crate) fn wanted_again(&mut self, cid: &CidGeneric<S>) {
+        if let Some(WantReqState::GotBlock) = self.req_state.get(cid) {
+            self.req_state.remove(cid);
+        }
+    }
+
     pub(crate) fn generate_proto_full(&mut self, wantlist: &Wantlist<S>) -> ProtoWantlist {
         // Remove canceled requests or received blocks
         self.req_state.retain(|cid, _| wantlist.cids.contains(cid));
